@@ -64,6 +64,7 @@ type VerifOp struct {
 	Second   []VerifEnt    `json:"second,omitempty"`    // race: the second writer's batch (the first one's is Ents)
 	PauseAt  string        `json:"pause_at,omitempty"`  // race: hook point at which the first writer is held
 	FirstTxn bool          `json:"first_txn,omitempty"` // race: the first writer is a (single-dataset) transaction
+	SinceStr string        `json:"since_str,omitempty"` // hchanges: a position as a decimal string (positions at and above 2^63 do not fit Since)
 	Ld       bool          `json:"ld,omitempty"`        // hchanges / hentities: every request is repeated with Accept: application/ld+json and compared
 	RefuseDuring string    `json:"refuse_during,omitempty"` // batch: while this writer stands at batch.beforeIdCommit, a batch into this OTHER dataset is refused
 	Burn     int           `json:"n,omitempty"`         // burn: number of internal ids to use up (entities stored in a hidden dataset)
@@ -95,6 +96,7 @@ type VerifOpObs struct {
 	Pages   [][]VerifEnt        `json:"pages,omitempty"` // entities
 	RPages  [][]VerifRel        `json:"rpages,omitempty"`
 	Found   bool                `json:"found,omitempty"`
+	NextStr string              `json:"next_str,omitempty"` // hchanges with since_str: the returned position as a decimal string
 	Seqs    []int64             `json:"seqs,omitempty"`
 	Raw     map[string][]string `json:"raw,omitempty"` // rawkeys: index id -> keys (hex) in Badger iteration order
 	NewSeqs int                 `json:"newseqs,omitempty"`
